@@ -106,6 +106,8 @@ pub struct SendObs {
     pub prepare_error: Option<String>,
     /// the case ran in plain-tunnel mode
     pub plain: bool,
+    /// the prepared request was sent a second time and that exchange was not the same as the first
+    pub resend_differs: Option<String>,
 }
 
 /// A user-defined streaming body: the `programs` quantifier of C07.
@@ -562,69 +564,120 @@ fn finish<B: attohttpc::body::Body>(rb: attohttpc::RequestBuilder<B>, case: &Sen
     for (n, v) in prepared.headers().iter() {
         obs.prepared_headers.push((n.as_str().to_string(), v.as_bytes().to_vec()));
     }
-    let shared = Arc::new(Mutex::new(Shared { scripts: case.hops.iter().map(|h| h.0.clone()).collect(), next: 0, dials: vec![] }));
-    let sh = shared.clone();
     let dial_failure = DIAL_FAILURE.with(|d| d.take());
-    // the scripted connections of this case take 1 / 7 / 100 bytes per write call, or everything
-    crate::script::set_write_limit(match (case.url.len() + case.method.len() + case.pre.len()) % 5 {
-        0 => 1,
-        1 => 7,
-        2 => 100,
-        _ => usize::MAX,
-    });
-    verif_hooks::set_dial_factory(Box::new(move |info| {
-        // only http / https connections exist: anything else must take the production path
-        // (which refuses the scheme)
-        if info.scheme != "http" && info.scheme != "https" {
-            return None;
-        }
-        let mut s = sh.lock().unwrap();
-        let i = s.next;
-        s.next += 1;
-        if let Some((fi, kind)) = dial_failure {
-            if fi == i {
-                let (_, log) = Script::new(vec![]);
-                s.dials.push((info.clone(), log));
-                return Some(Err(std::io::Error::new(crate::script::kind_of(kind), "scripted dial failure")));
+    let mut send_once = |prepared: &mut attohttpc::PreparedRequest<B>| -> (Vec<HopObs>, FinalObs) {
+        let shared = Arc::new(Mutex::new(Shared { scripts: case.hops.iter().map(|h| h.0.clone()).collect(), next: 0, dials: vec![] }));
+        let sh = shared.clone();
+        // the scripted connections of this case take 1 / 7 / 100 bytes per write call, or everything
+        crate::script::set_write_limit(match (case.url.len() + case.method.len() + case.pre.len()) % 5 {
+            0 => 1,
+            1 => 7,
+            2 => 100,
+            _ => usize::MAX,
+        });
+        verif_hooks::set_dial_factory(Box::new(move |info| {
+            // only http / https connections exist: anything else must take the production path
+            // (which refuses the scheme)
+            if info.scheme != "http" && info.scheme != "https" {
+                return None;
             }
-        }
-        let segs = s.scripts.get(i).cloned().unwrap_or_default();
-        let (script, log) = Script::new(segs);
-        s.dials.push((info.clone(), log));
-        Some(Ok(Box::new(script) as Box<dyn verif_hooks::Transport>))
-    }));
-    verif_hooks::set_plain_tunnels(case.plain_tunnel);
-    let res = catch_unwind(AssertUnwindSafe(|| prepared.send()));
-    verif_hooks::clear_dial_factory();
-    crate::script::set_write_limit(usize::MAX);
-    let mut tunnels = verif_hooks::take_tunnel_log().into_iter();
-    verif_hooks::set_plain_tunnels(false);
-    obs.fin = match res {
-        Err(_) => FinalObs::Panic,
-        // the URL the response reports, whole: credentials and fragment are part of it (seed C09-seed8)
-        Ok(Ok(resp)) => FinalObs::Ok(resp.status().as_u16(), resp.url().as_str().to_string()),
-        Ok(Err(e)) => match e.kind() {
-            attohttpc::ErrorKind::ConnectError { status_code, body } => FinalObs::ConnectError(status_code.as_u16(), body.clone()),
-            _ => match classify_atto(&e) {
-                Classified::Blocked => FinalObs::Blocked,
-                Classified::Err(k) => FinalObs::Err(k),
+            let mut s = sh.lock().unwrap();
+            let i = s.next;
+            s.next += 1;
+            if let Some((fi, kind)) = dial_failure {
+                if fi == i {
+                    let (_, log) = Script::new(vec![]);
+                    s.dials.push((info.clone(), log));
+                    return Some(Err(std::io::Error::new(crate::script::kind_of(kind), "scripted dial failure")));
+                }
+            }
+            let segs = s.scripts.get(i).cloned().unwrap_or_default();
+            let (script, log) = Script::new(segs);
+            s.dials.push((info.clone(), log));
+            Some(Ok(Box::new(script) as Box<dyn verif_hooks::Transport>))
+        }));
+        verif_hooks::set_plain_tunnels(case.plain_tunnel);
+        let res = catch_unwind(AssertUnwindSafe(|| prepared.send()));
+        verif_hooks::clear_dial_factory();
+        crate::script::set_write_limit(usize::MAX);
+        let mut tunnels = verif_hooks::take_tunnel_log().into_iter();
+        verif_hooks::set_plain_tunnels(false);
+        let fin = match res {
+            Err(_) => FinalObs::Panic,
+            // the URL the response reports, whole: credentials and fragment are part of it (seed C09-seed8)
+            Ok(Ok(resp)) => FinalObs::Ok(resp.status().as_u16(), resp.url().as_str().to_string()),
+            Ok(Err(e)) => match e.kind() {
+                attohttpc::ErrorKind::ConnectError { status_code, body } => FinalObs::ConnectError(status_code.as_u16(), body.clone()),
+                _ => match classify_atto(&e) {
+                    Classified::Blocked => FinalObs::Blocked,
+                    Classified::Err(k) => FinalObs::Err(k),
+                },
             },
-        },
-    };
-    let s = shared.lock().unwrap();
-    for (d, log) in &s.dials {
-        let pauses = log.lock().unwrap().events.iter().filter(|e| matches!(e, crate::script::LogEv::ReadPause)).count();
-        let mut h = HopObs { dial: d.clone(), written: log.lock().unwrap().written.clone(), tunnel: None, read_pauses: pauses };
-        // a handshake was left out on this connection iff the proxy agreed to the CONNECT: in order
-        if case.plain_tunnel && h.split_connect().map_or(false, |(_, after)| !after.is_empty()) {
-            h.tunnel = tunnels.next();
+        };
+        let s = shared.lock().unwrap();
+        let mut hops = vec![];
+        for (d, log) in &s.dials {
+            let pauses = log.lock().unwrap().events.iter().filter(|e| matches!(e, crate::script::LogEv::ReadPause)).count();
+            let mut h = HopObs { dial: d.clone(), written: log.lock().unwrap().written.clone(), tunnel: None, read_pauses: pauses };
+            // a handshake was left out on this connection iff the proxy agreed to the CONNECT: in order
+            if case.plain_tunnel && h.split_connect().map_or(false, |(_, after)| !after.is_empty()) {
+                h.tunnel = tunnels.next();
+            }
+            hops.push(h);
         }
-        obs.hops.push(h);
+        (hops, fin)
+    };
+    let (hops, fin) = send_once(&mut prepared);
+    obs.hops = hops;
+    obs.fin = fin;
+    // A prepared request can be sent again, and sending it again is the same exchange: the same peers are
+    // dialled and the same bytes written on every connection, the same outcome — whatever an earlier send (its
+    // redirects, its proxy decisions, its error) left behind (seeds C11-seed9, C16-seed9). Not judged for a
+    // caller's body that can be written only once, for multipart forms whose first transmission failed (C15 has
+    // its own cases), and when a scripted dial failure was consumed by the first send.
+    let one_shot = matches!(&case.body, BodyR::Custom { ctype: Some(ct), .. } if ct == ONE_SHOT);
+    if !one_shot && dial_failure.is_none() && !matches!(obs.fin, FinalObs::Panic) && RESEND.with(|r| r.get()) {
+        let (hops2, fin2) = send_once(&mut prepared);
+        let show = |f: &FinalObs| format!("{:?}", f).chars().take(80).collect::<String>();
+        if hops2.len() != obs.hops.len() {
+            obs.resend_differs = Some(format!("the second send() made {} connections, the first {}; outcomes {} / {}", hops2.len(), obs.hops.len(), show(&fin2), show(&obs.fin)));
+        } else if let Some(i) = (0..hops2.len()).find(|&i| hops2[i].dial.host != obs.hops[i].dial.host || hops2[i].dial.port != obs.hops[i].dial.port || hops2[i].dial.scheme != obs.hops[i].dial.scheme) {
+            obs.resend_differs = Some(format!("connection #{} of the second send() went to {}://{}:{}, of the first to {}://{}:{}", i, hops2[i].dial.scheme, hops2[i].dial.host, hops2[i].dial.port, obs.hops[i].dial.scheme, obs.hops[i].dial.host, obs.hops[i].dial.port));
+        } else if let Some(i) = (0..hops2.len()).find(|&i| {
+            // what follows a CONNECT head is a TLS handshake (fresh random bytes every time) unless the TLS layer
+            // was left out on request: only the clear text is compared there
+            let clear = |h: &HopObs| -> Vec<u8> {
+                match h.split_connect() {
+                    Some((head, _)) if !case.plain_tunnel => head.to_vec(),
+                    _ => canon_wire(&h.written),
+                }
+            };
+            clear(&hops2[i]) != clear(&obs.hops[i])
+        }) {
+            obs.resend_differs = Some(format!("connection #{} of the second send() carried {:?}, of the first {:?}", i, String::from_utf8_lossy(&hops2[i].written[..hops2[i].written.len().min(300)]), String::from_utf8_lossy(&obs.hops[i].written[..obs.hops[i].written.len().min(300)])));
+        } else if show(&fin2) != show(&obs.fin) {
+            obs.resend_differs = Some(format!("the second send() ended {}, the first {}", show(&fin2), show(&obs.fin)));
+        }
+    }
+}
+
+thread_local! {
+    /// send every prepared request a second time and compare (on by default)
+    pub static RESEND: std::cell::Cell<bool> = const { std::cell::Cell::new(true) };
+}
+
+impl SendObs {
+    /// the oracle clause of the second send
+    pub fn resend_check(&self, tag: &str) -> Result<(), (String, String)> {
+        match &self.resend_differs {
+            Some(why) => Err((format!("resend-differs-{}", tag), why.clone())),
+            None => Ok(()),
+        }
     }
 }
 
 pub fn run_send(case: &SendCase) -> SendObs {
-    let mut obs = SendObs { hops: vec![], fin: FinalObs::Panic, url: None, prepared_headers: vec![], prepare_error: None, plain: case.plain_tunnel };
+    let mut obs = SendObs { hops: vec![], fin: FinalObs::Panic, url: None, prepared_headers: vec![], prepare_error: None, plain: case.plain_tunnel, resend_differs: None };
     let method = attohttpc::Method::from_bytes(case.method.as_bytes()).unwrap_or(attohttpc::Method::GET);
     let rb = match attohttpc::RequestBuilder::try_new(method.clone(), &case.url) {
         Ok(rb) => rb,
